@@ -139,9 +139,14 @@ func c06Run(rec *ev.Recorder, c c06Case, root string) {
 		if rng.Intn(30) == 0 {
 			off += uint64(rng.Int63n(1 << 33)) // exercise wide varints
 		}
+		accBefore := w.accum.Len()
 		if err := w.Push(e.Offset, e.Size, e.Slot, keys, flags&1 != 0, flags&2 != 0, flags&4 != 0); err != nil {
 			rec.Violation("GsfaWriter.Push/error", fmt.Sprintf("%s: push %d: %v", c.Name, pushes, err), c)
 			return
+		}
+		if w.accum.Len() < accBefore-1000 {
+			// the accumulator shrank by more than a push can explain: the periodic partial flush ran
+			rec.Count("periodic_partial_flushes_observed", 1)
 		}
 		for _, k := range keys {
 			if _, ok := model.m[k]; !ok {
@@ -235,9 +240,18 @@ func c06RealCases(seed int64) []c06Case {
 	// the same key several times in one push history with many keys per push
 	cs = append(cs, c06Case{Name: "multi-key", Hot: []int{1000, 1500, 2000, 700}, Cold: 500, ColdMax: 5, Seed: seed + 99, MultiKey: 80, SlotStep: 2})
 	// periodic partial flush: > 100 000 distinct addresses in the accumulator, slot%500==0 reached
-	cs = append(cs, c06Case{Name: "periodic-flush", Hot: []int{2500, 1000, 120, 99}, Cold: 101_000, ColdMax: 2, Seed: seed + 7, MultiKey: 10, SlotStep: 97})
+	// periodic partial flush: > 100 000 distinct addresses in the accumulator and a push with slot%500==0.
+	// Hot addresses with 1100..1500 entries: at the moment of the flush (somewhere between 67% and 90% of the
+	// pushes) some of them have handed exactly one full batch to the background writer and hold a remainder
+	// of 1..99 entries in the accumulator.
+	var hotP []int
+	for c := 1100; c <= 1500; c += 20 {
+		hotP = append(hotP, c)
+	}
+	hotP = append(hotP, 2500, 1000, 120, 99)
+	cs = append(cs, c06Case{Name: "periodic-flush", Hot: hotP, Cold: 125_000, ColdMax: 1, Seed: seed + 7, MultiKey: 0, SlotStep: 1})
 	if ev.Thorough() {
-		cs = append(cs, c06Case{Name: "periodic-flush-2", Hot: []int{3000, 1001, 150, 100, 98, 5}, Cold: 130_000, ColdMax: 3, Seed: seed + 8, MultiKey: 30, SlotStep: 41})
+		cs = append(cs, c06Case{Name: "periodic-flush-2", Hot: append(append([]int{}, hotP...), 3000, 1001, 2099, 150, 100, 98, 5), Cold: 260_000, ColdMax: 1, Seed: seed + 8, MultiKey: 5, SlotStep: 1})
 		for i := 0; i < 12; i++ {
 			r := rand.New(rand.NewSource(seed*977 + int64(i)))
 			var hot []int
